@@ -267,3 +267,34 @@ edit('C14', 'twin', 'select grouping via a local', PARSER, "            self.con
 edit('C07', 'twin', 'join condition validation split in two steps', FRAME, "            condition = series.Cumulative.ensure_notin(series.Predicate.ensure_is(condition))", "            condition = series.Predicate.ensure_is(condition)\n            condition = series.Cumulative.ensure_notin(condition)")
 edit('C08', 'twin', 'equality proxy with == on classes', SERIES, "            if self.operator is Equal:\n                return self.left.__class__ is self.right.__class__ and tuple.__eq__(self.left, self.right)", "            if self.operator is Equal:\n                return type(self.left) is type(self.right) and tuple.__eq__(self.left, self.right)")
 edit('C06', 'twin', 'join flags via separate statements', ALCH, "            opts['isouter'] = True\n            if kind is dsl.Join.Kind.RIGHT:\n                left, right = right, left", "            if kind is dsl.Join.Kind.RIGHT:\n                left, right = right, left\n            opts['isouter'] = True")
+
+
+# ---- behaviour-preserving refactorings applied through the AST (rename a local, return through a temporary, add a log line):
+# every one of them must leave the check silent (fv.core normalises them away, DESIGN 15) -----------------------------
+def refactor(prop: str, name: str, file: str, qual: str, *how) -> None:
+    ENTRIES.append({'property': prop, 'name': name, 'kind': 'twin', 'func': (file, qual), 'refactor': how})
+
+
+refactor('C01', 'rename local functor in Table.add', 'forml/flow/_code/compiler.py', 'Table.add', 'rename', 'functor', 'instruction')
+refactor('C01', 'Linkage.__getitem__ through a temporary', 'forml/flow/_code/compiler.py', 'Table.Linkage.__getitem__', 'temp')
+refactor('C03', 'rename local in MapReduce.compose', 'forml/pipeline/payload/_generic.py', 'MapReduce.compose', 'rename', 'train_applier', 'fitted_applier')
+refactor('C03', 'log line in Segment.extend', 'forml/flow/_graph/span.py', 'Segment.extend', 'log')
+refactor('C04', 'rename local in State.commit', 'forml/io/asset/_access.py', 'State.commit', 'rename', 'tag', 'meta')
+refactor('C05', 'rename local previous in Project.put', 'forml/io/asset/_directory/level/case.py', 'Project.put', 'rename', 'previous', 'newest')
+refactor('C05', 'Release.put through a temporary', 'forml/io/asset/_directory/level/major.py', 'Release.put', 'temp')
+refactor('C06', 'rename local in visit_query', 'forml/io/dsl/parser.py', 'Visitor.visit_query', 'rename', 'orderby', 'ordering_terms')
+refactor('C06', 'generate_set through a temporary', 'forml/provider/feed/reader/alchemy.py', 'Parser.generate_set', 'temp')
+refactor('C07', 'rename local in Join.__new__', 'forml/io/dsl/_struct/frame.py', 'Join.__new__', 'log')
+refactor('C08', 'Feature.__eq__ through a temporary', 'forml/io/dsl/_struct/series.py', 'Feature.__eq__', 'temp')
+refactor('C09', 'rename local priority in Feed._extract', 'forml/setup/_provider.py', 'Feed._extract', 'rename', 'priority', 'rank')
+refactor('C10', 'rename local where in Prepared.__call__', 'forml/io/_input/extract.py', 'Statement.Prepared.__call__', 'rename', 'where', 'window')
+refactor('C11', 'log line in Publishable.publish', 'forml/flow/_graph/port.py', 'Publishable.publish', 'log')
+refactor('C12', 'rename local in CVFoldable.train', 'forml/pipeline/payload/_split.py', 'CVFoldable.train', 'rename', 'groups', 'membership')
+refactor('C13', 'Stateful.Actor.get_state through a temporary', 'forml/pipeline/wrap/_actor.py', 'Stateful.Actor.get_state', 'temp')
+refactor('C14', 'rename local origin in Tables.select', 'forml/io/dsl/parser.py', 'Container.Context.Tables.select', 'rename', 'origin', 'owner')
+refactor('C15', 'rename local identical in _match_entry', 'forml/io/_input/_producer.py', 'Reader._match_entry', 'rename', 'identical', 'same_layout')
+refactor('C16', 'rename local updates in _get_descriptor', 'forml/runtime/_service/dispatch.py', 'Wrapper._get_descriptor', 'rename', 'updates', 'fresh')
+refactor('C17', 'rename local combined in ABTest.__init__', 'forml/application/_strategy.py', 'ABTest.__init__', 'rename', 'combined', 'weight_sum')
+refactor('C18', 'rename local instance in Generation.Key.__new__', 'forml/io/asset/_directory/level/minor.py', 'Generation.Key.__new__', 'rename', 'instance', 'number')
+refactor('C19', 'get_encoder log line', 'forml/io/layout/_codec.py', 'get_encoder', 'log')
+refactor('C20', 'rename local in Reference.__new__', 'forml/provider/__init__.py', 'Reference.__new__', 'rename', 'qualname', 'path')
